@@ -4,7 +4,7 @@ from /tmp/wt-Cxx/MUTANTS and the confirmation + detection log work/mutlog/Cxx_X.
 import sys, os, re, json, shutil
 VERIF = os.path.dirname(os.path.dirname(os.path.abspath(__file__)))
 pid, X = sys.argv[1], sys.argv[2]
-src = f"/tmp/wt-{pid}/MUTANTS"
+src = f"/tmp/wt-{pid}/" + (sys.argv[3] if len(sys.argv) > 3 else "MUTANTS")
 log = open(os.path.join(VERIF, "work", "mutlog", f"{pid}_{X}.txt")).read()
 suite = re.search(r"suite-with-change:\s*(.*)", log).group(1).strip()
 dwith = re.search(r"demo-with-change:\s*(.*)", log).group(1).strip()
